@@ -353,6 +353,23 @@ def evalDeleteWhere (c : Cfg) (bs : List Block) (s : St) : St :=
   let sols := evalWhere (storeDataset c s none) bs none
   sols.foldl (deleteSolution (blocksToTpl bs) none) s
 
+/-- The pinned `evalDeleteWhere` (before `fix: evalDeleteWhere computes all solutions before deleting`),
+    SIMPLIFIED to its essence for a pattern in the default graph of a plain Graph: the matches of the first
+    triple pattern are enumerated up front, but the rest of the pattern is matched — lazily, by the
+    generator — against the store as it is when that match is reached, i.e. after the deletions made for
+    earlier solutions.  (The real generator is lazier still; this is not tied by correspondence, the code
+    is gone.  It documents why the snapshot matters.) -/
+def evalDeleteWhereLazy (ps : List TPat) (s : St) : St :=
+  match ps with
+  | [] => s
+  | p :: rest =>
+    (graphTriples s.quads none).foldl (fun s t =>
+      match matchTriple p t [] with
+      | none => s
+      | some μ =>
+        (evalBGP rest (graphTriples s.quads none) μ).foldl
+          (deleteSolution (blocksToTpl [(.dflt, p :: rest)]) none) s) s
+
 /-- `evalInsertData`: one blank-node map for the operation, no variables -/
 def evalInsertData (tpl : List QTpl) (s : St) : St := insertSolution tpl none s []
 
